@@ -22,6 +22,18 @@ pub const ASSUMPTIONS: &[&str] = &[
 fn stage(i: &Input, c: &mut Case) -> Result<(), String> {
     let mut t = Tape::new(i.tape());
     let m = gen_mixed(&mut t, MixOpts { weights: [1, 1, 6, 2, 4, 2], ..MixOpts::default() });
+    totality(t, m, c)
+}
+
+/// the same driver over documents nested 28 .. 300 masters deep (`gen_deep`)
+fn stage_deep(i: &Input, c: &mut Case) -> Result<(), String> {
+    let mut t = Tape::new(i.tape());
+    let m = gen_deep(&mut t, false);
+    c.label("nested_28_to_300_deep");
+    totality(t, m, c)
+}
+
+fn totality(mut t: Tape, m: MixedInput, c: &mut Case) -> Result<(), String> {
     let len = m.bytes.len();
     let mut cfg = super::c03::gen_read_cfg(&mut t, &m, true);
     cfg.eof_close = !t.chance(1, 4);
@@ -347,12 +359,13 @@ fn stage_depth(i: &Input, c: &mut Case) -> Result<(), String> {
     Ok(())
 }
 
-pub const STAGES: &[Stage] = &[Stage { name: "totality", f: stage }, Stage { name: "stack_depth_buffered_masters", f: stage_depth }];
+pub const STAGES: &[Stage] = &[Stage { name: "totality", f: stage }, Stage { name: "stack_depth_buffered_masters", f: stage_depth }, Stage { name: "totality_deep_nesting", f: stage_deep }];
 
 pub fn run(rc: &mut RunCtx) {
     // shapes: 0 empty known-size, 1 unknown-size closed by the next sibling, 2 with a child, 3 separated by a root-level leaf
     rc.run_indexed(STAGES[1], 4, true, &|k| Input::Args(vec![k, 3000]));
     rc.run_pt(STAGES[0], rc.pick(960_000, 5_000_000), (128, 700));
+    rc.run_pt(STAGES[2], rc.pick(20_000, 150_000), (64, 200));
     for l in ["error_returned", "try_recover_called", "injected_error_surfaced", "fused_checked", "capacity_below_16", "input_adversarial_headers", "input_random_bytes", "failure_injected_at_tag_boundary", "source_keeps_failing"] {
         rc.require_label("totality", l, 10_000);
     }
